@@ -66,6 +66,13 @@ theorem rsum_succWrap (g : Nat → Nat) (L : Nat) :
     rw [h, if_pos rfl]
     omega
 
+/-- open boundary: shifting the index when both end terms vanish -/
+theorem rsum_shift_open (g : Nat → Nat) (L : Nat) (h0 : g 0 = 0) (hL : g L = 0) :
+    rsum L (fun j => g (j + 1)) = rsum L g := by
+  have h1 := rsum_succ' g L
+  have h2 : rsum (L + 1) g = rsum L g + g L := rfl
+  omega
+
 /-- a count along the key list `c 0, …, c (L-1)` as a sum of indicators -/
 theorem countP_range_map (p : Coord → Bool) (c : Nat → Coord) : ∀ L : Nat,
     ((List.range L).map c).countP p = rsum L (fun j => if p (c j) = true then 1 else 0)
@@ -101,6 +108,39 @@ theorem range'_two : ∀ (n s : Nat), List.range' s n 2 = (List.range n).map (fu
     apply List.map_congr_left
     intro i _
     simp only [Function.comp]
+    omega
+
+/-- **Ladder with open boundaries**, in lattice coordinates (`u` = moving coordinate, `w` =
+    coordinate along the line): lines at `u = 2i + a`, positions `w = 2j + c`; the constraint
+    at `(2i + a + 1, 2j + c)` involves its four neighbours, and `F` vanishes on the two
+    positions just outside the rung line. -/
+theorem ladder_open (a c : Int) (M L : Nat) (F : Int → Int → Nat)
+    (hz0 : ∀ i : Nat, F (2 * i + a + 1) (c - 1) = 0)
+    (hzL : ∀ i : Nat, F (2 * i + a + 1) (2 * L + c - 1) = 0)
+    (hstab : ∀ i j : Nat, i + 1 < M → j < L →
+      (F (2 * i + a) (2 * j + c) + F (2 * i + a + 2) (2 * j + c)
+        + F (2 * i + a + 1) (2 * j + c - 1) + F (2 * i + a + 1) (2 * j + c + 1)) % 2 = 0) :
+    ∀ i : Nat, i < M →
+      rsum L (fun j => F (2 * i + a) (2 * j + c)) % 2 = rsum L (fun j => F a (2 * j + c)) % 2 := by
+  intro i hi
+  have h := ladder L M (fun i j => F (2 * i + a) (2 * j + c))
+    (fun i j => F (2 * i + a + 1) (2 * j + c - 1))
+    (fun i j => F (2 * i + a + 1) (2 * j + c + 1)) ?_ ?_ i hi
+  · simpa using h
+  · intro i _
+    rw [← rsum_shift_open (fun j => F (2 * i + a + 1) (2 * j + c - 1)) L]
+    · apply rsum_congr
+      intro j _
+      show F _ _ = F _ _
+      congr 1
+      omega
+    · have := hz0 i
+      simpa using this
+    · exact hzL i
+  · intro i hi j hj
+    have := hstab i j hi hj
+    have e : (2 * ((i + 1 : Nat) : Int) + a) = 2 * (i : Int) + a + 2 := by omega
+    simp only [e]
     omega
 
 /-- Python `range(p, 2L, 2)` for `p ≤ 1` -/
